@@ -25,6 +25,15 @@ pub fn verify_oods<Layout: LayoutTrait>(
     trace_domain_size: &Felt,
     trace_generator: &Felt,
 ) -> Result<(), OodsVerifyError> {
+    // The out-of-domain values are the mask values followed by the composition polynomial values;
+    // the DEEP evaluation reads them at exactly these positions.
+    ensure!(
+        oods.len() == Layout::MASK_SIZE + Layout::CONSTRAINT_DEGREE,
+        OodsVerifyError::InvalidLength {
+            expected: Layout::MASK_SIZE + Layout::CONSTRAINT_DEGREE,
+            actual: oods.len()
+        }
+    );
     let composition_from_trace = Layout::eval_composition_polynomial(
         interaction_elements,
         public_input,
@@ -47,7 +56,7 @@ pub fn verify_oods<Layout: LayoutTrait>(
     )
 }
 
-use swiftness_transcript::assure;
+use swiftness_transcript::{assure, ensure};
 #[cfg(feature = "std")]
 use thiserror::Error;
 
@@ -56,6 +65,9 @@ use thiserror::Error;
 pub enum OodsVerifyError {
     #[error("oods invalid {expected} - {actual}")]
     EvaluationInvalid { expected: Felt, actual: Felt },
+
+    #[error("invalid number of oods values: expected {expected}, actual {actual}")]
+    InvalidLength { expected: usize, actual: usize },
     #[error("CompositionPolyEval Error")]
     CompositionPolyEvalError(#[from] CompositionPolyEvalError),
 }
@@ -68,6 +80,9 @@ use thiserror_no_std::Error;
 pub enum OodsVerifyError {
     #[error("oods invalid {expected} - {actual}")]
     EvaluationInvalid { expected: Felt, actual: Felt },
+
+    #[error("invalid number of oods values: expected {expected}, actual {actual}")]
+    InvalidLength { expected: usize, actual: usize },
     #[error("CompositionPolyEval Error")]
     CompositionPolyEvalError(#[from] CompositionPolyEvalError),
 }
